@@ -68,6 +68,21 @@ pub fn build(work: &Path, name: &str, nasm_text: &str, nargs: usize) -> Built {
     }
 }
 
+/// assemble the transliterated text with GNU as only (no driver, no link)
+pub fn assemble_only(work: &Path, name: &str, nasm_text: &str) -> Built {
+    std::fs::create_dir_all(work).unwrap();
+    let s_path = work.join(format!("{name}.s"));
+    std::fs::write(&s_path, transliterate(nasm_text)).unwrap();
+    let obj = work.join(format!("{name}.o"));
+    let r = Command::new("gcc").arg("-c").arg("-o").arg(&obj).arg(&s_path).output();
+    let _ = std::fs::remove_file(&obj);
+    match r {
+        Ok(o) if o.status.success() => Built { bin: obj, assembler_errors: None },
+        Ok(o) => Built { bin: obj, assembler_errors: Some(String::from_utf8_lossy(&o.stderr).chars().take(2000).collect()) },
+        Err(e) => Built { bin: obj, assembler_errors: Some(format!("cannot run gcc: {e}")) },
+    }
+}
+
 pub struct RunOut { pub stdout: Vec<u8>, pub status: Option<i32>, pub signal: Option<i32>, pub timed_out: bool }
 
 pub fn run(bin: &Path, args: &[i64], timeout_ms: u64) -> RunOut {
